@@ -72,6 +72,40 @@ type localDef struct {
 	idx   int
 	val   ssa.Value
 	addr  bool
+	obj   types.Object
+}
+
+// defsOf: the recorded definitions of the source variable `name`. When a parameter or named result has that name,
+// variables of inner scopes that shadow it (`if err, ok := err.(*T); ok {`) are ignored: a contract means the parameter.
+func (f *Frame) defsOf(name string) []localDef {
+	all := f.locals[name]
+	if f.fn == nil || len(all) == 0 {
+		return all
+	}
+	var owner types.Object
+	for _, p := range f.fn.Params {
+		if p.Name() == name && p.Object() != nil {
+			owner = p.Object()
+		}
+	}
+	if owner == nil {
+		rs := f.fn.Signature.Results()
+		for i := 0; i < rs.Len(); i++ {
+			if rs.At(i).Name() == name {
+				owner = rs.At(i)
+			}
+		}
+	}
+	if owner == nil {
+		return all
+	}
+	var out []localDef
+	for _, d := range all {
+		if d.obj == owner {
+			out = append(out, d)
+		}
+	}
+	return out
 }
 
 func (c *FuncCtx) newFrame(fn *ssa.Function, con *Contract) *Frame {
@@ -272,6 +306,14 @@ func (f *Frame) loopMods(li *loopInfo) (map[string]bool, bool, map[string][]ssa.
 					}
 				}
 			case ssa.CallInstruction:
+				for _, n := range f.c.trackedCalls() {
+					cc := x.Common()
+					if assertMatches(n, cc, cc.StaticCallee()) {
+						k := callsKey(n).Name
+						mod[k] = true
+						unknown[k] = true
+					}
+				}
 				ks, a := f.callMods(x)
 				if a {
 					all = true
@@ -872,6 +914,13 @@ func (cur *blockCur) assume(t string) {
 	}
 	cur.n++
 	c := cur.f.c
+	if c.pureSpec > 0 {
+		// a function is being unfolded inside a specification: what the translation would ASSUME along the way (type
+		// invariants of loaded values, callee postconditions) must not become part of the conditions that select
+		// the result — nothing asserts those assumptions on the path that uses the specification, and a result of
+		// the form ite(assumptions-and-branch, v, zero) would differ from the code's own value of the same call
+		return
+	}
 	if c.inlineDefs == 0 && (strings.Contains(t, "(forall ") || strings.Contains(t, "(exists ")) {
 		// A quantified fact never sits inside a block predicate: block predicates are used in both polarities (as
 		// conditions of the `ite` terms that merge states), and the solvers' incremental front end is not reliable
@@ -928,6 +977,22 @@ func (f *Frame) checkBackEdge(cur *blockCur, b *ssa.BasicBlock, li *loopInfo) {
 			if p == b {
 				phis[phi] = f.val(phi.Edges[i])
 			}
+		}
+	}
+	if f.con != nil && f.callerFrame == nil {
+		// `loop N: repeat-only-if E`: the iteration that is about to be repeated justifies the repetition — E is
+		// evaluated at the jump, with the values this iteration computed (relaxed name lookup, as for call-site asserts)
+		for _, cl := range f.con.RepeatIf[li.ordinal] {
+			env := f.specEnv(b, cur.st, nil)
+			env.atEnd = true
+			f.relaxedLocals = true
+			t, err := env.evalBool(cl.Expr)
+			f.relaxedLocals = false
+			if err != nil {
+				panic(unsupportedErr{fmt.Sprintf("repeat-only-if %q: %v", cl.Text, err)})
+			}
+			f.c.addObligation(&Obligation{Name: f.oblName("repeat", fmt.Sprintf("loop%d:%s", li.ordinal, clauseLabel(cl))), Class: "assert",
+				Props: f.clauseProps(cl), Guard: guard, Goal: t, Src: "back edge of loop " + fmt.Sprint(li.ordinal) + ": " + cl.Text})
 		}
 	}
 	for _, inv := range li.invs {
